@@ -235,4 +235,7 @@ func init() {
 	mutant("C12", "connect-rejection-body-closed", "C12.R9", "internal/martian/proxy_connect.go", "\tres, conn, err = d.DialContextR(ctx, \"tcp\", req.URL.Host)\n", "\tres, conn, err = d.DialContextR(ctx, \"tcp\", req.URL.Host)\n\tif res != nil {\n\t\tdefer res.Body.Close()\n\t}\n")
 	mutant("C14", "unknown-keyword-is-direct", "C14.R5", "pac/proxy.go", "\tif s == \"DIRECT\" {\n\t\treturn Proxy{Mode: DIRECT}, nil\n\t}\n", "\tif s == \"DIRECT\" || !strings.Contains(s, \":\") {\n\t\treturn Proxy{Mode: DIRECT}, nil\n\t}\n")
 	mutant("C09", "relay-locks-flow-twice", "C09.R8", relay, "func (r *relay) outputBuffer(streamID uint32) *outputBuffer {\n", "func (r *relay) outputBuffer(streamID uint32) *outputBuffer {\n\tr.flowMu.Lock()\n\tdefer r.flowMu.Unlock()\n")
+	mutant("C05", "unfix-pac-direct-nil-url", "C05.R7", "http_proxy.go", "\tif proxyURL == nil {\n\t\t// DIRECT, there is no proxy to authenticate to.\n\t\treturn nil, nil\n\t}\n", "")
+	mutant("C12", "unfix-pac-direct-nil-url", "C12.R10", "http_proxy.go", "\tif proxyURL == nil {\n\t\t// DIRECT, there is no proxy to authenticate to.\n\t\treturn nil, nil\n\t}\n", "")
+	mutant("C12", "pac-direct-check-too-late", "C12.R10", "http_proxy.go", "\tif proxyURL == nil {\n\t\t// DIRECT, there is no proxy to authenticate to.\n\t\treturn nil, nil\n\t}\n", "").and("http_proxy.go", "\tif u := hp.creds.MatchURL(proxyURL); u != nil {\n\t\tproxyURL.User = u\n\t}\n\n\treturn proxyURL, nil\n}\n\nfunc (hp *HTTPProxy) middlewareStack()", "\tif proxyURL == nil {\n\t\treturn nil, nil\n\t}\n\tif u := hp.creds.MatchURL(proxyURL); u != nil {\n\t\tproxyURL.User = u\n\t}\n\n\treturn proxyURL, nil\n}\n\nfunc (hp *HTTPProxy) middlewareStack()")
 }
